@@ -306,7 +306,11 @@ namespace igris
                 retcode = READLINE_NOTHING;
             }
 
-            _last = c;
+            // Первой половиной пары CRLF/LFCR может быть только символ,
+            // который сам был обработан как перевод строки. Проглоченная
+            // вторая половина и символы, поглощенные escape-последовательностью,
+            // пару не начинают.
+            _last = (retcode == READLINE_NEWLINE) ? c : 0;
             return retcode;
         }
 
